@@ -188,7 +188,9 @@ func (ac *acceptCtx) domain() []mmut {
 			}
 		})
 	}
-	add("AccountBlocks", "extra-valid-block", func(d *nom.DetailedMomentum) { d.AccountBlocks = append(d.AccountBlocks, vnode.CloneBlock(ac.extraBlk)) })
+	add("AccountBlocks", "extra-valid-block", func(d *nom.DetailedMomentum) {
+		d.AccountBlocks = append(d.AccountBlocks, vnode.CloneBlock(ac.extraBlk))
+	})
 	return out
 }
 
